@@ -175,3 +175,17 @@ def assigns(stmt, name: str) -> bool:
 
 def is_for_over(stmt, target: str) -> bool:
     return isinstance(stmt, ast.For) and isinstance(stmt.target, ast.Name) and stmt.target.id == target
+
+
+class RealFallback:
+    """Mixin for stand-in `self` objects of lifted statements: any attribute the stand-in does not define is taken from the
+    real Repository class (methods bound to the stand-in), so a change that merely introduces a helper method does not
+    break the harness."""
+
+    def __getattr__(self, name):
+        import types
+        import replicat.repository as _R
+        if name.startswith('__'):
+            raise AttributeError(name)
+        attr = getattr(_R.Repository, name)
+        return types.MethodType(attr, self) if callable(attr) else attr
